@@ -471,8 +471,16 @@ pub async fn catch_up_sub(
                     _ = cancel.cancelled() => {
                         break;
                     },
-                    Ok(res) = sub_rx.recv() => res,
-                    else => break
+                    res = sub_rx.recv() => match res {
+                        Ok(res) => res,
+                        // events were lost, we can't provide continuity past this point
+                        Err(RecvError::Lagged(skipped)) => {
+                            return Err(eyre::eyre!(
+                                "catching up too slowly, subscription skipped {skipped} events"
+                            ));
+                        }
+                        Err(RecvError::Closed) => break,
+                    },
                 };
 
                 if let QueryEventMeta::Change(change_id) = meta
